@@ -188,6 +188,9 @@ fn c03() {
         if let Ok(t) = local::enc(v, 1, 2, "m", &fo, &None, false) { let parts: Vec<&str> = t.split('.').collect(); if let Some(mut d) = R::unb64(parts[2]) { let n = d.len(); let pos = if v == 2 { 24 } else { 32 }; if n > pos { d[pos] ^= 1;
             let mut t2 = format!("{}.{}.{}", parts[0], parts[1], R::b64(&d)); if parts.len() == 4 { t2.push('.'); t2.push_str(parts[3]); }
             if let Ok(p) = local::dec(v, 1, &t2, &fo, &None) { return wit(format!("C03 v{v}.local with a {l}-byte footer accepts a token whose first ciphertext byte was changed -> {p:?}")); } } } } } }
+    for v in 1..=4u8 { for n in [4097usize, 5000, 8192, 9001, 20_000] { let m = "z".repeat(n); if let Ok(t) = local::enc(v, 1, 2, &m, &None, &None, false) { let parts: Vec<&str> = t.split('.').collect(); if let Some(d) = R::unb64(parts[2]) { let len = d.len(); let tagl = match v { 1 | 3 => 48, 2 => 16, _ => 32 };
+        for back in [1usize, 17, 100, 4000] { if len > tagl + back { let mut e = d.clone(); e[len - tagl - back] ^= 1; let t2 = format!("{}.{}.{}", parts[0], parts[1], R::b64(&e));
+            if let Ok(p) = local::dec(v, 1, &t2, &None, &None) { return wit(format!("C03 v{v}.local token of a {n}-byte message accepts a changed ciphertext byte {back} before the end of the ciphertext -> returns a message of {} bytes that {}", p.len(), if p == m { "equals the original" } else { "differs from the original" })); } } } } } } }
     footer_rebinding("C03");
     // the parser layers must not normalise the token text either
     { let key = lkv(PasetoSymmetricKey::<V4, Local>::from(key32(1))); let mut pb = PasetoBuilder::<V4, Local>::default();
@@ -303,6 +306,21 @@ fn layer_setter_orders(pid: &str) {
       if let Ok(t) = gb.try_encrypt(key) { let mut p = GenericParser::<V4, Local>::default(); p.set_footer(Footer::from("new")); if p.parse(lk(&t), key).is_err() { return wit(format!("{pid} GenericBuilder: the second set_footer does not replace the first")); } }
       let mut g2 = GenericParser::<V4, Local>::default(); g2.set_implicit_assertion(ImplicitAssertion::from("old")); g2.set_implicit_assertion(ImplicitAssertion::from(""));
       let mut b2 = GenericBuilder::<V4, Local>::default(); b2.set_claim(AudienceClaim::from("a")); if let Ok(t) = b2.try_encrypt(key) { if g2.parse(lk(&t), key).is_err() { return wit(format!("{pid} GenericParser: set_implicit_assertion(\"old\") then (\"\") still expects the old assertion")); } } }
+    // one parser object whose expectation is changed between two parses of the same token follows the new expectation (local and public)
+    { let mut gb = GenericBuilder::<V4, Local>::default(); gb.set_claim(AudienceClaim::from("a")); gb.set_footer(Footer::from("F")); gb.set_implicit_assertion(ImplicitAssertion::from("A"));
+      if let Ok(t) = gb.try_encrypt(key) { let t = lk(&t);
+        let mut g = GenericParser::<V4, Local>::default(); g.set_footer(Footer::from("F")); g.set_implicit_assertion(ImplicitAssertion::from("A")); let mut p = PasetoParser::<V4, Local>::default(); p.set_footer(Footer::from("F")); p.set_implicit_assertion(ImplicitAssertion::from("A"));
+        let a = (g.parse(t, key).is_ok(), p.parse(t, key).is_ok()); g.set_footer(Footer::from("G")); p.set_footer(Footer::from("G")); let b = (g.parse(t, key).is_ok(), p.parse(t, key).is_ok());
+        g.set_footer(Footer::from("F")); p.set_footer(Footer::from("F")); g.set_implicit_assertion(ImplicitAssertion::from("B")); p.set_implicit_assertion(ImplicitAssertion::from("B")); let c = (g.parse(t, key).is_ok(), p.parse(t, key).is_ok());
+        if a != (true, true) || b != (false, false) || c != (false, false) { return wit(format!("{pid} one local parser (Generic, Paseto): parse with the right footer/assertion = {a:?}, after set_footer(other) = {b:?}, after set_implicit_assertion(other) = {c:?}; must be (true,true), (false,false), (false,false)")); } }
+      let (kp, pk) = R::ed_keypair(9); let k64 = lkv(Key::<64>::from(kp)); let k32 = lkv(Key::<32>::from(pk)); let pkk = lkv(PasetoAsymmetricPublicKey::<V4, Public>::from(k32));
+      let mut gb = GenericBuilder::<V4, Public>::default(); gb.set_claim(AudienceClaim::from("a")); gb.set_footer(Footer::from("F")); gb.set_implicit_assertion(ImplicitAssertion::from("A"));
+      if let Ok(t) = gb.try_sign(&PasetoAsymmetricPrivateKey::<V4, Public>::from(k64)) { let t = lk(&t);
+        let mut g = GenericParser::<V4, Public>::default(); g.set_footer(Footer::from("F")); g.set_implicit_assertion(ImplicitAssertion::from("A")); let mut p = PasetoParser::<V4, Public>::default(); p.set_footer(Footer::from("F")); p.set_implicit_assertion(ImplicitAssertion::from("A"));
+        let a = (g.parse(t, pkk).is_ok(), p.parse(t, pkk).is_ok()); g.set_footer(Footer::from("G")); p.set_footer(Footer::from("G")); let b = (g.parse(t, pkk).is_ok(), p.parse(t, pkk).is_ok());
+        g.set_footer(Footer::from("F")); p.set_footer(Footer::from("F")); g.set_implicit_assertion(ImplicitAssertion::from("B")); p.set_implicit_assertion(ImplicitAssertion::from("B")); let c = (g.parse(t, pkk).is_ok(), p.parse(t, pkk).is_ok());
+        g.set_footer(Footer::from("")); p.set_footer(Footer::from("")); let d = (g.parse(t, pkk).is_ok(), p.parse(t, pkk).is_ok());
+        if a != (true, true) || b != (false, false) || c != (false, false) || d != (false, false) { return wit(format!("{pid} one public parser (Generic, Paseto): parse with the right footer/assertion = {a:?}, after set_footer(other) = {b:?}, after set_implicit_assertion(other) = {c:?}, after set_footer(\"\") = {d:?}; must be (true,true) then (false,false) each time")); } } }
     // a builder used twice keeps footer and assertion
     { let mut gb = GenericBuilder::<V4, Local>::default(); gb.set_claim(AudienceClaim::from("a")); gb.set_footer(Footer::from("F")); gb.set_implicit_assertion(ImplicitAssertion::from("A"));
       let mut p = GenericParser::<V4, Local>::default(); p.set_footer(Footer::from("F")); p.set_implicit_assertion(ImplicitAssertion::from("A"));
@@ -411,6 +429,9 @@ fn c08() {
         }
         if let Err(e) = local::dec(v, 1, &want, &f, &i) { return wit(format!("C08 v{v}.local rejects the specification's token for message len {} footer {:?}: {e:?}", m.len(), f)); }
     }}}}
+    for v in 1..=4u8 { for n in [4095usize, 4096, 4097, 5000, 8192, 8193, 20_000] { let m = "q".repeat(n); let want = local::reference(v, 1, 2, &m, &None, &None);
+        match local::enc(v, 1, 2, &m, &None, &None, false) { Ok(t) if t == want => {}, o => return wit(format!("C08 v{v}.local token of a {n}-byte message differs from the specification's algorithm (first difference at text offset {:?})", o.ok().map(|t| t.bytes().zip(want.bytes()).position(|(a, b)| a != b)))) }
+        match local::dec(v, 1, &want, &None, &None) { Ok(p) if p == m => {}, o => return wit(format!("C08 v{v}.local does not decrypt the specification's token of a {n}-byte message to that message: {:?}", o.map(|p| p.len()).map_err(|e| format!("{e:?}")))) } } }
     // public Ed25519: byte-identical (deterministic) and cross-verification
     let (kp, pk) = R::ed_keypair(9); let k64 = lkv(Key::<64>::from(kp)); let k32 = lkv(Key::<32>::from(pk));
     for m in msgs() { for f in footers().iter().take(8) { for i in [None, Some("ia")] {
@@ -454,6 +475,9 @@ fn c09() {
         chk!("PasetoParser::<V4,Public>::parse", PasetoParser::<V4, Public>::default().parse(lk(s), lkv(PasetoAsymmetricPublicKey::<V4, Public>::from(k32))));
         chk!("PasetoParser::<V2,Public>::parse", PasetoParser::<V2, Public>::default().parse(lk(s), lkv(PasetoAsymmetricPublicKey::<V2, Public>::from(k32))));
     }
+    { let k4096 = lkv(rsakeys::rsa4096_public()); let pool = rsakeys::pool(); let k2048 = lkv(pool[1].1.clone());
+      for kb in [&k4096[..], &k2048[..], &k4096[..40], &[][..]] { for n in (0..=1100usize).step_by(1) { if n > 600 && n % 50 != 0 { continue; } let s = format!("v1.public.{}", R::b64(&vec![7u8; n]));
+          if !no_panic(AssertUnwindSafe(|| { let _ = Paseto::<V1, Public>::try_verify(&s, &PasetoAsymmetricPublicKey::<V1, Public>::from(kb), None); })) { return wit(format!("C09 Paseto::<V1,Public>::try_verify panics on a {n}-byte payload under a {}-byte verifying key", kb.len())); } } } }
     for claim in ["exp", "nbf", "iat"] { for val in ["9999-12-31T23:59:59Z", "9999-12-31T23:59:59.999999999Z", "9999-12-31T23:59:59-23:59", "9999-12-31T23:59:59+23:59", "0000-01-01T00:00:00Z", "0000-01-01T00:00:00+23:59", "0001-01-01T00:00:00-23:59", "1970-01-01T00:00:00Z", "2038-01-19T03:14:08Z"] {
         let (t, key) = v4tok(&format!("{{\"{claim}\":\"{val}\"}}"));
         if !no_panic(AssertUnwindSafe(|| { let _ = PasetoParser::<V4, Local>::default().parse(lk(&t), key); })) { return wit(format!("C09 PasetoParser::<V4,Local>::parse panics on an authentic token whose {claim} is {val:?}")); }
@@ -546,6 +570,11 @@ fn c11_c12(which: &str) {
           let good_instant = if claim == "exp" { "2999-01-01T00:00:00Z" } else { "2000-01-01T00:00:00Z" };
           let (t2, key2) = v4tok(&format!("{{\"{claim}\":\"{good_instant}\"}}"));
           if let Err(e) = PasetoParser::<V4, Local>::default().parse(lk(&t2), key2) { return wit(format!("{which} PasetoParser::default() rejects a token whose only claim is a valid {claim} = {good_instant}: {e}")); } }
+        { let bad_instant = if claim == "exp" { "2000-01-01T00:00:00Z" } else { "2999-01-01T00:00:00Z" }; let key = lkv(PasetoSymmetricKey::<V4, Local>::from(key32(1))); let n = Key::<32>::from([5u8; 32]);
+          let pl = lk(&format!("{{\"{claim}\":\"{bad_instant}\"}}")); let mut cb = Paseto::<V4, Local>::builder(); cb.set_payload(Payload::from(pl)); cb.set_footer(Footer::from("ft")); cb.set_implicit_assertion(ImplicitAssertion::from("ia"));
+          if let Ok(t) = cb.try_encrypt(&key, &PasetoNonce::<V4, Local>::from(&n)) { for order in 0..3 { let mut p = PasetoParser::<V4, Local>::default();
+              match order { 0 => { p.set_footer(Footer::from("ft")); p.set_implicit_assertion(ImplicitAssertion::from("ia")); } 1 => { p.set_implicit_assertion(ImplicitAssertion::from("ia")); p.set_footer(Footer::from("ft")); } _ => { p.check_claim(CustomClaim::try_from(("zz", 1)).unwrap_or_else(|_| unreachable!())); p.set_footer(Footer::from("ft")); p.set_implicit_assertion(ImplicitAssertion::from("ia")); } }
+              if order < 2 && p.parse(lk(&t), key).is_ok() { return wit(format!("{which} PasetoParser::default() with set_footer / set_implicit_assertion (order {order}) accepts a token whose {claim} is {bad_instant}")); } } } }
         // one parser reused for several tokens: every parse applies the default check afresh
         { let bad_instant = if claim == "exp" { "2000-01-01T00:00:00Z" } else { "2999-01-01T00:00:00Z" }; let good_instant = if claim == "exp" { "2999-01-01T00:00:00Z" } else { "2000-01-01T00:00:00Z" };
           let (tg, key) = v4tok(&format!("{{\"{claim}\":\"{good_instant}\"}}")); let (tb, _) = v4tok(&format!("{{\"{claim}\":\"{bad_instant}\"}}")); let (tn, _) = v4tok(&format!("{{\"{claim}\":12345}}"));
@@ -566,6 +595,7 @@ fn c11_c12(which: &str) {
 }
 #[cfg(feature = "main_set")]
 fn c13() {
+    case_variant_claims("C13");
     let key = lkv(PasetoSymmetricKey::<V4, Local>::from(key32(1)));
     let parse = |t: &str| GenericParser::<V4, Local>::default().parse(t, &key).unwrap();
     // ops: 0=set exp, 1=set custom, 2=ack, 3=footer, 4=build, 5=set nbf, 6=set iat
@@ -597,6 +627,19 @@ fn c13() {
             } }
         } }
     }
+}
+#[cfg(feature = "main_set")]
+fn case_variant_claims(pid: &str) {
+    let key = lkv(PasetoSymmetricKey::<V4, Local>::from(key32(1)));
+    for (name, lower) in [("EXP", "exp"), ("Exp", "exp"), ("IAT", "iat"), ("Nbf", "nbf"), ("ISS", "iss"), ("Sub", "sub")] {
+        let mut b = PasetoBuilder::<V4, Local>::default(); b.set_no_expiration_danger_acknowledged(); b.set_claim(CustomClaim::try_from((name, "custom")).unwrap());
+        match b.build(key) { Ok(t) => { if let Ok(j) = GenericParser::<V4, Local>::default().parse(lk(&t), key) {
+            if j[name] != "custom" { return wit(format!("{pid} custom claim {name:?} set on a PasetoBuilder does not appear under that key: {j}")); }
+            if lower == "exp" && !j["exp"].is_null() { return wit(format!("{pid} PasetoBuilder with acknowledged no-expiration and a custom claim {name:?}: the token carries exp: {j}")); }
+            if lower != "exp" && j[lower] == "custom" { return wit(format!("{pid} custom claim {name:?} replaced the registered claim {lower:?}: {j}")); } } }
+          Err(e) => return wit(format!("{pid} PasetoBuilder with custom claim {name:?} failed to build: {e}")) }
+        let mut b2 = PasetoBuilder::<V4, Local>::default(); b2.set_claim(CustomClaim::try_from((name, "custom")).unwrap());
+        if let Ok(t) = b2.build(key) { if let Ok(j) = GenericParser::<V4, Local>::default().parse(lk(&t), key) { if lower == "exp" { let e = j["exp"].as_str().unwrap_or(""); if time::OffsetDateTime::parse(e, &time::format_description::well_known::Rfc3339).is_err() { return wit(format!("{pid} PasetoBuilder with a custom claim {name:?}: the default exp was displaced: {j}")); } } } } }
 }
 #[cfg(feature = "main_set")]
 fn claims_between_builds(pid: &str) {
@@ -632,7 +675,7 @@ fn c14() {
     }}}
     { let mut b = GenericBuilder::<V4, Local>::default(); for k in ["Data", "data", "DATA", "Sub"] { b.set_claim(CustomClaim::try_from((k, 1)).unwrap()); } b.set_claim(SubjectClaim::from("s")); b.remove_claim("data");
       if let Ok(t) = b.try_encrypt(&key) { match GenericParser::<V4, Local>::default().parse(lk(&t), key) { Ok(j) => { if j != json!({"Data": 1, "DATA": 1, "Sub": 1, "sub": "s"}) { return wit(format!("C14 claims Data, data, DATA, Sub, sub were set and only `data` removed, but the parsed token holds {j}")); } } Err(e) => return wit(format!("C14 parse failed after remove_claim: {e}")) } } }
-    claims_between_builds("C14");
+    claims_between_builds("C14"); case_variant_claims("C14");
     // two keys that differ only by an invisible code point stay two members
     { let mut b = GenericBuilder::<V4, Local>::default(); b.set_claim(CustomClaim::try_from(("dup", 1)).unwrap()); b.set_claim(CustomClaim::try_from(("dup\u{feff}", 2)).unwrap());
       if let Ok(t) = b.try_encrypt(&key) { match GenericParser::<V4, Local>::default().parse(lk(&t), key) { Ok(j) => { if j != json!({"dup": 1, "dup\u{feff}": 2}) { return wit(format!("C14 claims dup=1 and dup<U+FEFF>=2 were set but the parsed token holds {j}")); } } Err(e) => return wit(format!("C14 parse failed for keys differing by U+FEFF: {e}")) } } }
@@ -680,6 +723,11 @@ fn c15() {
           if r { return wit(format!("C15 {} expecting nickname (value null) accepts a token whose nickname is an explicit JSON null: a null claim is not present", if layer == 0 { "GenericParser" } else { "PasetoParser" })); }
           let r2 = if layer == 0 { let mut p = GenericParser::<V4, Local>::default(); p.check_claim(CustomClaim::try_from(("nickname", "bob")).unwrap()); p.parse(lk(&t_null), key) } else { let mut p = PasetoParser::<V4, Local>::default(); p.check_claim(CustomClaim::try_from(("nickname", "bob")).unwrap()); p.parse(lk(&t_null), key) };
           match r2 { Ok(_) => return wit("C15 expecting nickname=bob accepts a token whose nickname is null".into()), Err(e) => { if !e.to_string().to_lowercase().contains("missing") && !format!("{e:?}").contains("Missing") { return wit(format!("C15 expecting nickname=bob on a token whose nickname is null is reported as {e:?}, not as a missing claim")); } } } } }
+    { let t_p = v4tok("{\"https://example.com/role\":\"admin\",\"~0\":1,\"x/y\":2,\"a\":{\"b\":1}}").0;
+      for (desc, k, v, acc) in [("'https://example.com/role'=admin (present)", "https://example.com/role", serde_json::json!("admin"), true), ("'~0'=1 (present)", "~0", serde_json::json!(1), true), ("'x/y'=2 (present)", "x/y", serde_json::json!(2), true),
+                                ("'a/b'=1 (absent: only a nested a.b exists)", "a/b", serde_json::json!(1), false), ("'x~1y'=2 (absent)", "x~1y", serde_json::json!(2), false), ("'~'=1 (absent)", "~", serde_json::json!(1), false)] {
+          let mut p = GenericParser::<V4, Local>::default(); p.check_claim(CustomClaim::try_from((k, v)).unwrap()); let r = p.parse(lk(&t_p), key).is_ok();
+          if r != acc { return wit(format!("C15 GenericParser expecting {desc} on payload {{'https://example.com/role':admin, '~0':1, 'x/y':2, a:{{b:1}}}} -> accepts = {r} but must be {acc}")); } } }
     // large integers are compared exactly
     { let t_n = v4tok("{\"uid\":9007199254740993,\"neg\":-9007199254740993,\"big\":18446744073709551615}").0;
       for (desc, claim, acc) in [("uid=9007199254740993", CustomClaim::try_from(("uid", 9007199254740993u64)).unwrap(), true), ("uid=9007199254740992 (differs by one above 2^53)", CustomClaim::try_from(("uid", 9007199254740992u64)).unwrap(), false), ("big=18446744073709551615", CustomClaim::try_from(("big", u64::MAX)).unwrap(), true), ("big=18446744073709551614", CustomClaim::try_from(("big", u64::MAX - 1)).unwrap(), false)] {
@@ -748,6 +796,13 @@ fn c16() {
       SEEN.lock().unwrap().clear(); let r = p.parse(lk(&t5), key); let mut seen = SEEN.lock().unwrap().clone(); seen.sort();
       let mut want: Vec<(String, String)> = [("jti", "\"id-7\""), ("iss", "\"me\""), ("sub", "\"alice\""), ("aud", "\"you\""), ("iat", "\"2000-01-01T00:00:00Z\"")].iter().map(|(a, b)| (a.to_string(), b.to_string())).collect(); want.sort();
       if r.is_err() || seen != want { return wit(format!("C16 validators registered with <typed claim>::default() for jti/iss/sub/aud/iat were invoked with {seen:?} (parse {:?}) but must each run once with the registered key and the payload's value {want:?}", r.map(|_| "Ok").map_err(|e| e.to_string()))); } }
+    { use std::sync::Mutex; static SEEN2: Mutex<Vec<(String, String)>> = Mutex::new(Vec::new());
+      fn record2(k: &str, v: &serde_json::Value) -> Result<(), PasetoClaimError> { SEEN2.lock().unwrap().push((k.to_string(), v.to_string())); if v == "blocked" { Err(PasetoClaimError::CustomValidation("blocked".into())) } else { Ok(()) } }
+      let t8 = v4tok("{\"status \":\"blocked\",\"status\":\"ok\",\" scope\":\"blocked\"}").0;
+      for k in ["status ", " scope"] { for layer in 0..2 { SEEN2.lock().unwrap().clear();
+          let r = if layer == 0 { let mut p = GenericParser::<V4, Local>::default(); p.validate_claim(CustomClaim::try_from(k).unwrap(), &record2); p.parse(lk(&t8), key).is_ok() } else { let mut p = PasetoParser::<V4, Local>::default(); p.validate_claim(CustomClaim::try_from(k).unwrap(), &record2); p.parse(lk(&t8), key).is_ok() };
+          let seen = SEEN2.lock().unwrap().clone();
+          if r || seen != vec![(k.to_string(), "\"blocked\"".to_string())] { return wit(format!("C16 a validator registered for the key {k:?} was invoked with {seen:?} and parse accepted = {r}; it must be invoked once with ({k:?}, \"blocked\") and its rejection honoured")); } } } }
     // every successful parse runs the validators again (public and local, generic and batteries-included)
     { let (kp, pk) = R::ed_keypair(9); let k64 = lkv(Key::<64>::from(kp)); let k32 = lkv(Key::<32>::from(pk)); let pkk = lkv(PasetoAsymmetricPublicKey::<V4, Public>::from(k32));
       let mut pb = PasetoBuilder::<V4, Public>::default(); pb.set_claim(SubjectClaim::from("alice"));
@@ -878,6 +933,14 @@ fn c02() { public_tamper(); c08();
             match b.try_sign(&PasetoAsymmetricPrivateKey::<V1, Public>::from(&sk[..])) { Ok(t) => match Paseto::<V1, Public>::try_verify(&t, &PasetoAsymmetricPublicKey::<V1, Public>::from(&pk[..]), f.map(Footer::from)) { Ok(p) if p == m => {}, o => return wit(format!("C02 v1.public round trip failed for message len {} footer {f:?}: {:?}", m.len(), o.map_err(|e| format!("{e:?}")))) }, Err(e) => return wit(format!("C02 v1.public try_sign failed: {e:?}")) }
         }}
     }
+    { let pool = rsakeys::pool(); let (kp0, pk0) = R::ed_keypair(9); let k64 = lkv(Key::<64>::from(kp0)); let k32 = lkv(Key::<32>::from(pk0));
+      for m in msgs() { if m.len() > 400 { continue; }
+        let mut b = Paseto::<V1, Public>::builder(); b.set_payload(Payload::from(m.as_str()));
+        match b.try_sign(&PasetoAsymmetricPrivateKey::<V1, Public>::from(&pool[0].0[..])) { Ok(t) => match Paseto::<V1, Public>::try_verify(&t, &PasetoAsymmetricPublicKey::<V1, Public>::from(&pool[0].1[..]), None) { Ok(p) if p == m => {}, o => return wit(format!("C02 v1.public: message {m:?} signed, verified result is {:?}", o.map_err(|e| format!("{e:?}")))) }, Err(e) => return wit(format!("C02 v1.public try_sign failed for {m:?}: {e:?}")) }
+        let mut b = Paseto::<V2, Public>::builder(); b.set_payload(Payload::from(m.as_str()));
+        match b.try_sign(&PasetoAsymmetricPrivateKey::<V2, Public>::from(k64)) { Ok(t) => match Paseto::<V2, Public>::try_verify(&t, &PasetoAsymmetricPublicKey::<V2, Public>::from(k32), None) { Ok(p) if p == m => {}, o => return wit(format!("C02 v2.public: message {m:?} signed, verified result is {:?}", o.map_err(|e| format!("{e:?}")))) }, Err(e) => return wit(format!("C02 v2.public try_sign failed for {m:?}: {e:?}")) }
+        let mut b = Paseto::<V4, Public>::builder(); b.set_payload(Payload::from(m.as_str()));
+        match b.try_sign(&PasetoAsymmetricPrivateKey::<V4, Public>::from(k64)) { Ok(t) => match Paseto::<V4, Public>::try_verify(&t, &PasetoAsymmetricPublicKey::<V4, Public>::from(k32), None, None) { Ok(p) if p == m => {}, o => return wit(format!("C02 v4.public: message {m:?} signed, verified result is {:?}", o.map_err(|e| format!("{e:?}")))) }, Err(e) => return wit(format!("C02 v4.public try_sign failed for {m:?}: {e:?}")) } } }
     // two RSA key pairs used one after the other (and again in the other order): each token verifies under its own key only
     { let pool = rsakeys::pool();
       for order in [[0usize, 1, 0, 1], [1, 0, 1, 0]] { for ix in order { let (sk, pkd) = &pool[ix]; let (_, other_pk) = &pool[1 - ix];
@@ -984,7 +1047,7 @@ fn layer_matrix(pid: &str) {
         let bkey = $bkey; let pkey = $pkey; let wrongkey = $wrongkey;
         for fo in [None, Some("ft")] { let ia: Option<&str> = if $ia { Some("ia") } else { None };
             // generic layer
-            let mut gb = GenericBuilder::<$V, $P>::default(); gb.set_claim(AudienceClaim::from("customers")).set_claim(CustomClaim::try_from(("n", 5)).unwrap()).set_claim(CustomClaim::try_from(("u", "Zo\u{eb}")).unwrap());
+            let mut gb = GenericBuilder::<$V, $P>::default(); gb.set_claim(AudienceClaim::from("customers")).set_claim(CustomClaim::try_from(("n", 5)).unwrap()).set_claim(CustomClaim::try_from(("u", "Zo\u{eb} \u{1F600} \u{20BB7}")).unwrap());
             if let Some(f) = fo { gb.set_footer(Footer::from(f)); }
             mx_ia!($ia, gb, ia);
             let mut toks = vec![];
@@ -992,7 +1055,7 @@ fn layer_matrix(pid: &str) {
             for (round, t) in toks.iter().enumerate() { let t = lk(t);
                 let mut gp = GenericParser::<$V, $P>::default(); if let Some(f) = fo { gp.set_footer(Footer::from(f)); } mx_ia!($ia, gp, ia);
                 let r = gp.parse(t, pkey);
-                if is(&["C01", "C02", "C05", "C06", "C08", "C14"]) { match &r { Ok(j) if *j == json!({"aud": "customers", "n": 5, "u": "Zo\u{eb}"}) => {}, o => return wit(format!("{pid} GenericBuilder/GenericParser<{}> footer {fo:?} assertion {ia:?} build #{round}: claims aud=customers,n=5,u=Zo\u{eb} were set, the parser was given the same footer and assertion, but parse gives {:?}", $name, o.as_ref().map_err(|e| e.to_string()))) } }
+                if is(&["C01", "C02", "C05", "C06", "C08", "C14"]) { match &r { Ok(j) if *j == json!({"aud": "customers", "n": 5, "u": "Zo\u{eb} \u{1F600} \u{20BB7}"}) => {}, o => return wit(format!("{pid} GenericBuilder/GenericParser<{}> footer {fo:?} assertion {ia:?} build #{round}: claims aud=customers,n=5,u=Zo\u{eb} were set, the parser was given the same footer and assertion, but parse gives {:?}", $name, o.as_ref().map_err(|e| e.to_string()))) } }
                 if is(&["C05", "C08"]) { let seg: Vec<&str> = t.split('.').collect(); let want = if fo.unwrap_or("").is_empty() { 3 } else { 4 }; if seg.len() != want || (want == 4 && seg[3] != R::b64(fo.unwrap_or("").as_bytes())) { return wit(format!("{pid} GenericBuilder<{}>: the footer segment of the token built with footer {fo:?} is not base64url(footer): {t}", $name)); } }
                 if r.is_err() { continue; }
                 if is(&["C04"]) { let mut gp = GenericParser::<$V, $P>::default(); if let Some(f) = fo { gp.set_footer(Footer::from(f)); } mx_ia!($ia, gp, ia); if gp.parse(t, wrongkey).is_ok() { return wit(format!("C04 GenericParser<{}> accepts a token under a key it was not produced with", $name)); } }
